@@ -1,4 +1,5 @@
 import ShootVerif.Proofs.MapperPairs
+import ShootVerif.Proofs.MapperNames
 /-!
 C05 — ToX/FromX copy exactly the matching field pairs, by the type rules.
 
@@ -163,6 +164,55 @@ theorem C05_match_symm (a b : List Char) : smartMatchL a b = smartMatchL b a := 
 theorem C05_match_length (a b : List Char) (h : smartMatchL a b = true) : a.length = b.length := by
   simp only [smartMatchL, Bool.and_eq_true, beq_iff_eq] at h
   exact h.1
+
+/-- the name relation from ABOVE: names that match have equal length and are equal up to case
+    (ASCII identifiers without underscores; with underscores `A_B` ~ `AB_` would match — ToPascalCase
+    drops them — which is why `namesOk` is a region clause) -/
+theorem C05_match_sound (a b : List Char) (ha : Ascii a) (hb : Ascii b) (hna : NoUS a) (hnb : NoUS b)
+    (h : smartMatchL a b = true) : a.length = b.length ∧ equalFoldL a b = true :=
+  smartMatch_fold a b ha hb hna hnb h
+
+/-- the name relation EXACTLY: `smartMatch` holds iff the names are identical or consist of the same
+    words (same letters ignoring case, word starts at the same positions) — the spec's `sameWords` -/
+theorem C05_match_iff (a b : List Char) (ha : Ascii a) (hb : Ascii b) (hna : NoUS a) (hnb : NoUS b) :
+    smartMatchL a b = true ↔ (a = b ∨ sameWords a b = true) := by
+  constructor
+  · exact sameWords_of_smartMatch a b ha hb hna hnb
+  · rintro (rfl | h)
+    · exact C05_match_refl a
+    · exact smartMatch_of_sameWords a b ha hb hna hnb h
+
+/-- the name relation from BELOW: a purely syntactic acronym variant (the non-initial letters of one
+    all-caps run of length ≥ 2 lower-cased, in either name: `ID~Id`, `LoadXML~LoadXml`,
+    `HTTPServer~HttpServer`) always matches. Several runs: compose, `smartMatch` is transitive on names
+    of equal length (`C05_match_trans`). -/
+theorem C05_match_acronym (a b : List Char) (ha : Ascii a) (hb : Ascii b) (hna : NoUS a) (hnb : NoUS b)
+    (h : acronymVariant a b) : smartMatchL a b = true := by
+  rcases h with h | h
+  · exact smartMatch_of_sameWords a b ha hb hna hnb (sameWords_of_step a b ha h)
+  · have := sameWords_of_step b a hb h
+    rw [sameWords_symm] at this
+    exact smartMatch_of_sameWords a b ha hb hna hnb this
+
+theorem C05_match_trans (a b c : List Char) (h1 : smartMatchL a b = true) (h2 : smartMatchL b c = true) :
+    smartMatchL a c = true := by
+  simp only [smartMatchL, Bool.and_eq_true, Bool.or_eq_true, beq_iff_eq] at *
+  refine ⟨h1.1.trans h2.1, ?_⟩
+  rcases h1.2 with e1 | e1 <;> rcases h2.2 with e2 | e2
+  · exact Or.inl (e1.trans e2)
+  · exact Or.inr (e1 ▸ e2)
+  · exact Or.inr (e2 ▸ e1)
+  · exact Or.inr (e1.trans e2)
+
+example : acronymVariant "LoadXML".toList "LoadXml".toList :=
+  Or.inl ⟨"Load".toList, 'X', "ML".toList, [], by decide, by decide, by decide, by decide, by decide, Or.inl rfl,
+    Or.inr ⟨'L', "oad".toList, by decide, by decide⟩⟩
+example : acronymVariant "Id".toList "ID".toList :=
+  Or.inr ⟨[], 'I', ['D'], [], by decide, by decide, by decide, by decide, by decide, Or.inl rfl, Or.inl rfl⟩
+example : acronymVariant "HTTPServer".toList "HttpServer".toList :=
+  Or.inl ⟨[], 'H', "TTP".toList, "Server".toList, by decide, by decide, by decide, by decide, by decide,
+    Or.inr (Or.inr ⟨'S', 'e', "rver".toList, by decide, by decide, by decide⟩), Or.inl rfl⟩
+example : smartMatchL "xID".toList "xId".toList = false := by decide   -- Pascal-casing joins `x` to the run
 
 /-- with -i the relation is exactly case-insensitive equality of the (tag-substituted) names -/
 theorem C05_match_i (tm : List (String × String)) (f1 f2 : Field) (hg : f1.isGet = false) (hs : f1.isSet = false) :
